@@ -426,7 +426,7 @@ def run(ctx):
                 sc.nusers = len([l for l in sc.head if l.startswith("user ")])
                 scns.append(sc)
                 every[sc.id] = True
-        total = 110 if quick else 1200
+        total = 100 if quick else 1200
         for pi, (profile, faults, share) in enumerate([("msg", 0.0, 0.35), ("msg", 0.15, 0.2), ("perm", 0.0, 0.3), ("perm", 0.15, 0.15)]):
             for sc in T.gen_scenarios(ctx, max(1, int(total * share)), profile, faults, nops=(6, 20), prefix="p%d_" % pi):
                 sc.ops = sc.ops + probes(rng, sc)
@@ -481,7 +481,7 @@ def run(ctx):
             c, nins = variant_of(scns[0], views[scns[0].id], replay_ins[0], replay_ins[1], "v0")
             variants.append((c, scns[0], replay_ins[0], nins, replay_ins[1]))
     else:
-        n_every = 5 if quick else len(scns)
+        n_every = 4 if quick else len(scns)
         pick_every = set(sc.id for sc in rng.sample(scns, min(n_every, len(scns)))) | set(every)
         for sc in scns:
             n = len(sc.ops)
@@ -500,6 +500,13 @@ def run(ctx):
         for i in range(0, len(variants), 400):
             vimpl.update(run_and_view(ctx, [v[0] for v in variants[i:i + 400]], "var"))
         for c, sc, p, nins, how in variants:
+            # straight after the reload the cache was built by the load path alone
+            for j in range(p, p + nins):
+                vj = View(vimpl[c.id][j])
+                if vj.loaded and (j == 0 or vimpl[c.id][j - 1]["loaded"] == "0"):
+                    for key, det in incoherent(vj).items():
+                        dfails.setdefault("load-path-" + key[0], []).append((sc, p, how, p, {key[0]}, [("cache after the reload", det)]))
+                    break
             r = compare_variant(sc, impl[sc.id], vimpl[c.id], p, nins)
             if r is None:
                 continue
@@ -512,14 +519,18 @@ def run(ctx):
         small, sp = sc.clone(sc.ops[:k + 1]), p
         if law not in known and not ctx.replay:
             small, sp = shrink_variant(ctx, small, p, how, law, budget=30 if quick else 240)
+        what = ("the cache built by the load path differs from the stored rows after the topic is reloaded (%s) before request %d of this history"
+                if law.startswith("load-path-") else
+                "the real server answers differently when the topic is reloaded (%s) before request %d of this history") % (how, sp)
         ctx.violation("monitor", law,
-                      "the real server answers differently when the topic is reloaded (%s) before request %d of this history: first difference at request %d %s, fields %s: %s (%d perturbed runs differ this way)"
-                      % (how, sp, k, sc.ops[k], sorted(kinds), json.dumps(det, default=str)[:600], len(lst)),
+                      "%s: first difference at request %d %s, fields %s: %s (%d perturbed runs differ this way)"
+                      % (what, k, sc.ops[min(k, len(sc.ops) - 1)], sorted(kinds), json.dumps(det, default=str)[:600], len(lst)),
                       {"head": small.head, "ops": small.ops, "insert_at": sp, "how": how, "law": law, "fields": sorted(kinds), "detail": det})
 
-    # ---- fault sweep (thorough): Fail(k)/Crash(k) at every adapter call of every mutating request
+    # ---- fault sweep: Fail(k)/Crash(k) at every adapter call of every mutating request
+    # (thorough: all; quick: a sample stratified by (request kind, call index, F/C))
     sweep = 0
-    if not quick and not ctx.replay:
+    if not ctx.replay:
         sw = []
         for sc in scns:
             if any(o[0] != "N" for o in sc.ops):
@@ -535,14 +546,24 @@ def run(ctx):
                         c = sc.clone(sc.ops[:p] + [(fc + str(kk), o[1], o[2])] + sc.ops[p + 1:p + 6])
                         c.id = "%s_%s%d_%d" % (sc.id, fc, kk, p)
                         c.head = [re.sub(r"^scn \S+", "scn " + c.id, sc.head[0])] + sc.head[1:]
-                        sw.append((c, sc, p))
+                        sw.append((c, sc, p, (o[1], kk, fc, ncalls)))
         rng.shuffle(sw)
-        sw = sw[:6000]
+        if quick:
+            per = {}
+            pick = []
+            for x in sw:
+                if per.get(x[3], 0) < 5:
+                    per[x[3]] = per.get(x[3], 0) + 1
+                    pick.append(x)
+            sw = pick[:320]
+        else:
+            sw = sw[:8000]
         sweep = len(sw)
+        stats["sweep_strata"] = len(set(x[3] for x in sw))
         for i in range(0, len(sw), 400):
             part = sw[i:i + 400]
             simpl = run_and_view(ctx, [x[0] for x in part], "sweep")
-            for c, sc, p in part:
+            for c, sc, p, _ in part:
                 vs, fl = mon(c, simpl[c.id])
                 code = reply_code(vs[p], c.ops[p][2][0])
                 if code is not None and 200 <= code < 300 and simpl[c.id][p]["store"] != impl[sc.id][p]["store"]:
@@ -630,7 +651,7 @@ def run(ctx):
         "evaluations": len(scns) + len(variants) + sweep, "distinct_nontrivial": len(nt),
         "rule": "seeded random histories over one group topic (profiles msg and perm of topiclib: 2-5 users x 1-2 sessions, seeded subscriptions with assorted want/given; pub/note/get*/delmsg/leave/sub/setsub/delsub/unload/restart, 6-20 requests, about a third with single store faults F k / C k) followed by probe queries (getdesc+getsub for every session, getdata+getdel for three); each history is run unperturbed and with the topic reloaded (leave all; unload; re-attach) or the process restarted (restart; re-attach) before one random request (quick; before EVERY request for %s histories) and every later query answer and the stored rows are compared; thorough adds the Fail(k)/Crash(k) sweep over every adapter call of every mutating request; non-trivial = at least one accepted mutating request; distinct by (requests, replies)" % ("5" if quick else "all"),
         "operations_executed": nops + sum(len(v[0].ops) for v in variants),
-        "base_histories": len(scns), "perturbed_runs": len(variants), "fault_sweep_runs": sweep,
+        "base_histories": len(scns), "perturbed_runs": len(variants), "fault_sweep_runs": sweep, "fault_sweep_strata": stats.get("sweep_strata", 0),
         "perturbed_runs_differing": {k: len(v) for k, v in dfails.items()},
         "monitor_laws_failing": {k: len(v) for k, v in by_law.items()},
         "samples": [{"head": sc.head, "ops": sc.ops, "impl_frames_last_op": impl[sc.id][-1]["frames"] if impl[sc.id] else []} for sc in scns[:2]],
